@@ -368,6 +368,7 @@ def jobs(prop, tier):
     js = [{"name": "hyp-I", "mode": "I", "shards": 16 if prop != "C04" else 13}]
     if prop == "C04":
         js.append({"name": "calls-I", "mode": "I", "shards": 3, "case_timeout": 400})
+        js.append({"name": "gcc-zero-exh-I", "mode": "I", "shards": 8, "case_timeout": 400})
     if EXAMPLES[prop][tier][1] > 0:
         js.append({"name": "hyp-J", "mode": "J", "shards": 8, "timeout": 1500})
     return js
@@ -377,10 +378,43 @@ def run(prop, job, shard, nshards, seed, tier):
     from vlib.run import Recorder, drive, shard_seed
 
     rec = Recorder()
+    if job["name"] == "gcc-zero-exh-I":
+        # exhaustive: gcc with 0/1 upper capacities (at least one zero) over every box of 4 (thorough: 5) variables on 4 values
+        from itertools import product
+
+        from vlib.run import journal
+
+        jr = journal()
+        nvar = 4 if tier == "quick" else 5
+        ivs = [[a, b] for a in range(4) for b in range(a, 4)]
+        k = 0
+        nt = 0
+        for ubs in product((0, 1), repeat=4):
+            if all(ubs):
+                continue
+            for box in product(ivs, repeat=nvar):
+                k += 1
+                if k % nshards != shard:
+                    continue
+                case = {"type": "gcc", "params": [0, 0, 0, 0, 0] + list(ubs), "box": [list(b) for b in box]}
+                jr.begin(case)
+                v = check_c04_call(case)
+                rec.evaluations += 1
+                nt += 1
+                if not v.ok and len(rec.failures) < 2:
+                    rec.failures.append({"case": case, "msg": v.msg})
+                    break
+            if rec.failures:
+                break
+        jr.end()
+        rec.tag("gcc-zero-capacity-exhaustive", rec.evaluations)
+        res = rec.result()
+        res["exhaustive_nontrivial"] = nt
+        return res
     if job["name"] == "calls-I":
         from vlib.props.c16 import heavy_box
 
-        drive(heavy_box(tier), check_c04_call, rec, shard_seed(seed, shard, 9), 4000 if tier == "quick" else 40000, shrink_budget_s=60)
+        drive(heavy_box(tier), check_c04_call, rec, shard_seed(seed, shard, 9), 20000 if tier == "quick" else 150000, shrink_budget_s=60)
         return rec.result()
     n_i, n_j = EXAMPLES[prop][tier]
     n = n_i if job["mode"] == "I" else n_j
